@@ -143,6 +143,8 @@ def rename_term(t, ren):
 def rename_cond(c, ren):
     if c[0] == "if":
         return ("if", c[1], [ren.get(x, x) for x in c[2]])
+    if c[0] == "letc":
+        return ("letc", ren.get(c[1], c[1]), c[2])
     return (c[0], ren.get(c[1], c[1]), c[2], [ren.get(x, x) for x in c[3]])
 
 
@@ -222,7 +224,7 @@ def coq_arg(t, var):
 def coq_cond(c, var):
     if c[0] == "if":
         return "CIf"
-    if c[0] == "let":
+    if c[0] in ("let", "letc"):
         return "CLet [%s]" % var(c[1])
     if c[0] == "iflet":
         return "CIfLet [%s]" % var(c[1])
